@@ -550,6 +550,16 @@ func enumLin(t *testing.T, prop string, filter func(enumCase) bool) {
 			St.Class("enumerated_cases_with_a_third_client_pushing_inodes_out_of_the_cache")
 		}
 		api := w.S.API()
+		if prop == "C14" {
+			// a request that fails early on a dead directory handle (RENAME between two directories, one of them
+			// removed) precedes every case: whatever such a request leaves behind in the server's bookkeeping is
+			// then used by the overlapping transactions of the case
+			if mk := api.NFSPROC3_MKDIR(nt.MKDIR3args{Where: nt.Diropargs3{Dir: w.Dirs[0], Name: "zdead"}}); mk.Status == nt.NFS3_OK {
+				api.NFSPROC3_RMDIR(nt.RMDIR3args{Object: nt.Diropargs3{Dir: w.Dirs[0], Name: "zdead"}})
+				api.NFSPROC3_RENAME(nt.RENAME3args{From: nt.Diropargs3{Dir: mk.Resok.Obj.Handle, Name: "a"}, To: nt.Diropargs3{Dir: w.Dirs[1], Name: "q"}})
+				api.NFSPROC3_RENAME(nt.RENAME3args{From: nt.Diropargs3{Dir: w.Dirs[1], Name: "a"}, To: nt.Diropargs3{Dir: mk.Resok.Obj.Handle, Name: "q"}})
+			}
+		}
 		var ops []porcupine.Operation
 		clock := int64(0)
 		for _, o := range ec.Pre {
